@@ -64,6 +64,8 @@ Ids(t) ==
     [] t.k = "par" -> Ids(t.e)
     [] t.k = "fac" -> Ids(t.e)
     [] t.k = "bin" -> Ids(t.l) \cup Ids(t.r)
+    [] t.k = "istr" -> {[name |-> t.parts[i].ref, path |-> IF "path" \in DOMAIN t.parts[i] THEN t.parts[i].path ELSE <<t.parts[i].ref>>]
+                          : i \in {j \in 1..Len(t.parts) : "ref" \in DOMAIN t.parts[j]}}
     [] OTHER -> {}
 RECURSIVE DefIds(_)
 DefIds(t) ==
@@ -226,6 +228,19 @@ WalkStmt(s, st, sigma, frozen, af, md) ==
                    ELSE IF v.k # "num" THEN Unspec(p)
                    ELSE Emit(p, E!Store(v.n, s.w), s.sid)
         IN F[Len(s.es)]
+    [] s.k = "text" ->       \* `.text [encoding] "...{name}..."': the bytes of the interpolated string; nothing while a name is unresolved
+        LET v == EvalE(s.e, st, sigma, frozen) IN
+        IF v.k = "unres"
+          THEN (* as coded: an unresolved name interpolates as nothing (and is noted), the rest of the string is emitted in this pass *)
+               LET known == [k |-> "istr", parts |-> SelectSeq(s.e.parts, LAMBDA p : "lit" \in DOMAIN p \/ p.ref \notin {i.name : i \in v.ids})]
+                   w == EvalE(known, st, sigma, frozen)
+                   s1 == NoteUnresAt(st, v, frozen, s.sid) IN
+               IF frozen THEN s1 ELSE IF w.k # "str" THEN Unspec(s1) ELSE Emit(s1, E!TextBytes(s.enc, w.s), s.sid)
+        ELSE IF v.k # "str" THEN Unspec(st)
+        ELSE Emit(st, E!TextBytes(s.enc, v.s), s.sid)
+    [] s.k \in {"assert", "trace"} -> st      \* read by the test runner only: a build does not even evaluate them
+    [] s.k = "test" ->       \* a build only enumerates tests: the name is a symbol at the current pc, the body is not assembled
+        IF HasSeg(st) THEN Define(st, s.name, Num(TPc(st)), FALSE) ELSE st
     [] s.k = "setpc" ->
         LET v == EvalE(s.e, st, sigma, frozen) IN
         IF v.k = "unres" THEN NoteUnresAt(st, v, frozen, s.sid)
@@ -277,8 +292,11 @@ WalkStmt(s, st, sigma, frozen, af, md) ==
     [] s.k = "macrodef" ->
         Define(st, s.name, [k |-> "macro"], FALSE)
     [] s.k = "macrocall" ->
-        LET r == Lookup(md.md, st.scope, <<s.name>>) IN
-        IF ~r.found THEN (IF frozen THEN Err(st, [k |-> "unknownmacro", sid |-> s.sid])
+        LET r == Lookup(md.md, st.scope, <<s.name>>)
+            (* during a pass a macro is known once its definition has been walked (in this pass or an earlier one) *)
+            q == LookupN(st.tab, st.nodes, st.scope, <<s.name>>)
+            known == frozen \/ (q.found /\ st.tab[q.key].k = "macro") IN
+        IF ~r.found \/ ~known THEN (IF frozen THEN Err(st, [k |-> "unknownmacro", sid |-> s.sid])
                           ELSE [st EXCEPT !.undef = @ \cup {[scope |-> st.scope, name |-> s.name, sid |-> s.sid]}])
         ELSE LET d == md.md[r.key] IN
           IF Len(d.params) # Len(s.args) THEN Err(st, [k |-> "arity", sid |-> s.sid])
@@ -385,6 +403,12 @@ RunPass(prog, m, af) ==
                ELSE [p EXCEPT !.tab = (k :> ss[k]) @@ @]
   IN Reg[K]
 
+(* When the loop ends successfully, what the final pass did not define (again) is dropped from the table: a symbol of an
+   earlier pass only - e.g. of a macro invocation that was numbered differently while an `.if' condition was still unknown -
+   is not part of the program.  (PruneStale = FALSE is the pinned reading: such symbols stayed and reached the symbol file.) *)
+PruneStale == TRUE
+FinalTab(r) == IF PruneStale THEN [k \in (r.defined \cup r.aliases \cup DOMAIN SegSyms(r.segs)) \cap DOMAIN r.tab |-> r.tab[k]] ELSE r.tab
+
 (* the decision after a pass (the implementation's bail-out rules) *)
 Decide(m, r, defaultPc) ==
   IF DOMAIN r.segs = {}            \* pass 0 of a program without segment definitions: create the default segment
@@ -393,7 +417,7 @@ Decide(m, r, defaultPc) ==
   ELSE IF r.errs # {} /\ r.errs = m.prevErrs
     THEN [m EXCEPT !.tab = r.tab, !.segs = r.segs, !.errs = r.errs, !.phase = "failed"]
   ELSE IF r.errs = {} /\ r.undef = {} /\ m.confirmed
-    THEN [m EXCEPT !.tab = r.tab, !.segs = r.segs, !.errs = {}, !.undef = {}, !.phase = "ok"]
+    THEN [m EXCEPT !.tab = FinalTab(r), !.segs = r.segs, !.errs = {}, !.undef = {}, !.phase = "ok"]
   ELSE IF r.errs = {} /\ r.undef = {}       \* first clean pass: one more pass has to confirm the symbols (shadowing forward references)
     THEN [m EXCEPT !.tab = r.tab, !.segs = r.segs, !.vars = r.vars, !.nodes = r.nodes, !.confirmed = TRUE,
                    !.prevErrs = {}, !.errs = {}, !.undef = {}, !.pass = @ + 1]
